@@ -466,7 +466,9 @@ def random_sig(rng, pool, maxn=4, star_names=(('args', 'kwargs'), ('va', 'vk')),
         an, ua = None, E
         if meta and rng.random() < 0.5:
             an = rng.choice([11, 12])
-            ua = ('P', an)
+            # parameters of classes / callable instances / hand-built ones carry a raw
+            # annotation without an upgraded one
+            ua = ('P', an) if rng.random() < 0.7 else E
         ps.append(mk_param(nm, kind, de, an, ua))
     va, vk = rng.choice(star_names)
     if rng.random() < 0.5:
